@@ -256,6 +256,32 @@ func TestCheck(t *testing.T) {
 		do(scen.Case{Slice: 4, NRec: 1, GCreate: 2, GRepair: 2, Files: []scen.FileSpec{{Name: "big.bin", Size: 4*32768 + 1, Kind: "random", Seed: 4}}})
 	}
 
+	// files of a megabyte and more whose second half is all zero (sizes that are multiples of 64 KiB / 1 MiB and sizes that are
+	// not): a writer that treats runs of zeros specially must still produce every byte
+	for k, sz := range []int{2 << 20, 1 << 20, 1<<20 + 102400, 3<<20 + 65536, 131072, 196608} {
+		if cfg.Shard != (4+k)%cfg.NShards || ((k == 2 || k == 3) && !cfg.Thorough()) {
+			continue
+		}
+		rec.Class("file-with-long-zero-tail")
+		do(scen.Case{Slice: map[bool]int{true: 4096, false: 65536}[sz < 1<<20], NRec: 2, GCreate: 4, GRepair: 1 + k, DoubleCheck: k%2 == 0, Files: []scen.FileSpec{{Name: "img.bin", Size: sz, Kind: "halfzero", Seed: uint64(70 + k)}, {Name: "small.txt", Size: 300, Kind: "random", Seed: 5}},
+			Damage: []scen.Damage{{Op: "flip", File: 0, Off: 1000 + k}}})
+	}
+
+	// a slice is overwritten by other content with the same CRC-32 while the slice's real content survives only in a file that
+	// is scanned later (under another protected name): a rejected CRC hit says nothing about later windows
+	for k := 0; k < 3; k++ {
+		if cfg.Shard != (9+k)%cfg.NShards {
+			continue
+		}
+		rec.Class("crc-forged-slice-with-real-copy-elsewhere")
+		files := []scen.FileSpec{{Name: "a.dat", Size: 32, Kind: "random", Seed: uint64(31 + k)}, {Name: "b.dat", Size: 32, Kind: "random", Seed: uint64(41 + k)}, {Name: "c.dat", Size: 24, Kind: "random", Seed: uint64(51 + k)}}
+		// one file's original content is first copied over the other protected name, then slices of the original are CRC-forged in place
+		do(scen.Case{Slice: 8, NRec: 5, GCreate: 1, GRepair: 1 + k, Files: files,
+			Damage: []scen.Damage{{Op: "copy", File: 0, Other: 1}, {Op: "crcforge", File: 0, Off: 0, Len: 8, Seed: uint64(k + 1)}, {Op: "crcforge", File: 0, Off: 16, Len: 8, Seed: uint64(k + 5)}}})
+		do(scen.Case{Slice: 8, NRec: 5, GCreate: 1, GRepair: 1 + k, Files: files,
+			Damage: []scen.Damage{{Op: "copy", File: 1, Other: 0}, {Op: "crcforge", File: 1, Off: 8, Len: 8, Seed: uint64(k + 2)}}})
+	}
+
 	// the PAR2 format's own singular combination: exponents {0,3} and two slices whose constants have equal cubes
 	if cfg.Shard == 2%cfg.NShards || cfg.Shard == 3%cfg.NShards {
 		ci := gf16.PAR2Constants(12000)
